@@ -1,41 +1,49 @@
 #!/bin/bash
-# regress_mutants.sh [out-file] : re-evaluates every kept change against the quick check of the property it
-# targets (sequentially: each is applied to /repo, checked, and reverted). Do not run checks against /repo meanwhile.
-out=${1:-/tmp/regress.log}
+# regress_mutants.sh [out-file] [streams] : re-evaluates every kept change against the quick check of the
+# property it targets, each in its own scratch worktree of /repo (tools/evalmut.py --worktree), several at a time.
+# A MISSED under this load (the quick tier's wall cap cuts runs short) is to be re-run alone before it counts.
+out=${1:-/tmp/regress.log}; streams=${2:-3}
+cd /verif
 : > $out
-run() { # patch props...
+list=$(mktemp)
+for d in seeded/C*; do id=$(basename $d); echo "$d/patch.diff ${id%-*}" >> $list; done
+cat >> $list <<'EOL'
+mutants/own-notify-before-store.patch C06
+mutants/own-unlock-before-store.patch C05
+mutants/own-root-before-locks.patch C05
+mutants/own-skip-root-refresh.patch C05
+mutants/own-no-lock-sorting.patch C10
+mutants/own-gc-max-watermark.patch C08
+mutants/own-gc-off-by-one.patch C08
+mutants/own-keep-old-revision-entry.patch C04 C09
+mutants/own-init-close-before-store.patch C19
+mutants/own-watchset-drops-member.patch C20
+mutants/own-status-insert-instead-of-cas.patch C15
+mutants/own-backoff-not-reset.patch C16
+mutants/own-demote-threshold.patch C11
+mutants/own-txn-iterator-no-freeze.patch C11
+mutants/own-clone-forgets-leaf-watch.patch C12
+mutants/own-delete-rev-not-bumped.patch C07
+mutants/own-clone-no-freeze.patch C03
+mutants/revert-ad9862e.patch C05
+mutants/revert-628e036.patch C04
+mutants/revert-c55260b.patch C04
+mutants/revert-2d7fa08.patch C01
+mutants/revert-441e5a9.patch C02
+mutants/revert-6cb0c86.patch C07
+mutants/revert-369c0a1.patch C03
+mutants/revert-a24dfc7.patch C17
+mutants/revert-65b4f4c.patch C17
+mutants/revert-7f8fa67.patch C17
+mutants/revert-c4846bd.patch C16
+EOL
+run() {
+  set -- $1
   p=$1; shift
-  res=$(tools/evalmut.py $p "$@" 2>&1 | grep -v "^    SUMMARY" | grep "DETECTED\|MISSED\|does not apply" | cut -c1-160 | tr '\n' ';')
-  echo "$(basename $(dirname $p))/$(basename $p) :: $res" >> $out
+  res=$(tools/evalmut.py --worktree $p "$@" 2>&1 | grep -v "^    SUMMARY" | grep "DETECTED\|MISSED\|does not apply\|ERROR" | cut -c1-160 | tr '\n' ';')
+  echo "$p :: $res" >> $out
 }
-for d in seeded/C*; do id=$(basename $d); run $d/patch.diff ${id%-*}; done
-run mutants/own-notify-before-store.patch C06
-run mutants/own-unlock-before-store.patch C05
-run mutants/own-root-before-locks.patch C05
-run mutants/own-skip-root-refresh.patch C05
-run mutants/own-no-lock-sorting.patch C10
-run mutants/own-gc-max-watermark.patch C08
-run mutants/own-gc-off-by-one.patch C08
-run mutants/own-keep-old-revision-entry.patch C04 C09
-run mutants/own-init-close-before-store.patch C19
-run mutants/own-watchset-drops-member.patch C20
-run mutants/own-status-insert-instead-of-cas.patch C15
-run mutants/own-backoff-not-reset.patch C16
-run mutants/own-demote-threshold.patch C11
-run mutants/own-txn-iterator-no-freeze.patch C11
-run mutants/own-clone-forgets-leaf-watch.patch C12
-run mutants/own-delete-rev-not-bumped.patch C07
-run mutants/own-clone-no-freeze.patch C03
-run mutants/revert-ad9862e.patch C05
-run mutants/revert-628e036.patch C04
-run mutants/revert-c55260b.patch C04
-run mutants/revert-2d7fa08.patch C01
-run mutants/revert-441e5a9.patch C02
-run mutants/revert-6cb0c86.patch C07
-run mutants/revert-369c0a1.patch C03
-run mutants/revert-a24dfc7.patch C17
-run mutants/revert-65b4f4c.patch C17
-run mutants/revert-7f8fa67.patch C17
-run mutants/revert-c4846bd.patch C16
-git -C /repo status --short >> $out
+export -f run; export out
+cat $list | xargs -P $streams -I{} bash -c 'run "{}"'
+rm -f $list
 echo DONE >> $out
